@@ -50,9 +50,10 @@ def reads_param_before_define(fn: ast.FunctionDef, param: str) -> bool:
 class ScratchDiscipline:
     """obj: a module-level variable (qualified name), or with attr: the attribute `self.<attr>` of the instances of class cls"""
 
-    def __init__(self, w: World, obj: str, cls: Optional[str] = None, attr: Optional[str] = None):
+    def __init__(self, w: World, obj: str, cls: Optional[str] = None, attr: Optional[str] = None, class_level: bool = False):
         self.w, self.obj = w, obj
         self.cls, self.attr = cls, attr
+        self.class_level = class_level        # the list is created once in the class body (`class T: buf = [0.0, 0.0, 0.0]`)
         self.mq, self.name = obj.rsplit(".", 1)
         self.length = self._length()
         self.problems: List[Tuple[str, int, str]] = []     # (function, line, text)
@@ -77,7 +78,14 @@ class ScratchDiscipline:
 
     def _length(self) -> Optional[int]:
         v = None
-        if self.attr is not None:
+        if self.class_level:
+            ci_ = self.w.model.classes.get(self.cls)
+            for n in (ci_.node.body if ci_ else []):
+                if isinstance(n, ast.Assign) and any(isinstance(t, ast.Name) and t.id == self.attr for t in n.targets):
+                    v = n.value
+                elif isinstance(n, ast.AnnAssign) and isinstance(n.target, ast.Name) and n.target.id == self.attr and n.value is not None:
+                    v = n.value
+        elif self.attr is not None:
             for k in self.w.model.mro(self.cls) if self.cls else []:
                 init = self.w.model.classes[k].methods.get("__init__")
                 if init:
@@ -103,6 +111,9 @@ class ScratchDiscipline:
         return False
 
     def _is_obj(self, n: ast.AST, fi) -> bool:
+        if self.class_level:
+            # reached as  <instance or class>.<attr>  from anywhere; every attribute of that name counts (stricter, never laxer)
+            return isinstance(n, ast.Attribute) and n.attr == self.attr
         if self.attr is not None:
             return isinstance(n, ast.Attribute) and n.attr == self.attr and isinstance(n.value, ast.Name) and n.value.id == "self" \
                 and fi.cls is not None and self.cls in self.w.model.mro(fi.cls)
@@ -530,6 +541,9 @@ def check_shared_writes(ctx, w: World, om: OriginModel) -> None:
             sd = ScratchDiscipline(w, obj)
         elif sw.field is not None and sw.depth == 1 and w.eff.object_class(sw.obj):
             sd = ScratchDiscipline(w, obj, w.eff.object_class(sw.obj), sw.field)
+        elif sw.field is None and sw.depth == 0 and obj.startswith("<class attribute ") and obj.endswith(">"):
+            cq_, at_ = obj[len("<class attribute "):-1].rsplit(".", 1)
+            sd = ScratchDiscipline(w, obj, cq_, at_, class_level=True)
         if sd is not None and sd.components() is not None and kinds <= {"subscript-store:const"}:
             if sd.check() and sd.functions:
                 _ok("C17.1", f"scratch buffer {obj} is completely written before it is read in every activation", where,
